@@ -1,6 +1,7 @@
 package main
 
 import (
+	"math"
 	"fmt"
 	"github.com/uber-go/tally/v4/m3"
 	"strings"
@@ -12,7 +13,7 @@ import (
 
 func c09Scenarios(tier string) []*Scenario {
 	var out []*Scenario
-	kinds := []string{"counter", "gauge", "timer", "histogram", "tagged", "subscope", "mixed", "tagged+victim", "tagged+stale", "two-long-identities"}
+	kinds := []string{"counter", "gauge", "timer", "histogram", "tagged", "subscope", "mixed", "tagged+victim", "tagged+stale", "two-long-identities", "gauge+lookup"}
 	type variant struct {
 		kind    string
 		cached  bool
@@ -69,6 +70,14 @@ func c09Scenarios(tier string) []*Scenario {
 					case "gauge":
 						m := s.Gauge("x")
 						m.Update(float64(val))
+						objs[i] = m
+					case "gauge+lookup":
+						// one goroutine makes the first use and nothing else (it may sit in the reporter's Allocate call for a
+						// while), the other looks the gauge up and updates it - the only update there is
+						m := s.Gauge("x")
+						if i == 1 {
+							m.Update(7)
+						}
 						objs[i] = m
 					case "timer":
 						m := s.Timer("x")
@@ -187,6 +196,16 @@ func c09Scenarios(tier string) []*Scenario {
 				}
 				if n < 1 || n > v.threads {
 					return "gauge-lost", fmt.Sprintf("%d gauge deliveries for %d updates", n, v.threads), "viol"
+				}
+			case "gauge+lookup":
+				last, n := uint64(0), 0
+				for _, e := range log {
+					if e.Kind == "gauge" && e.ID() == pre+"x{}" {
+						last, n = e.F, n+1
+					}
+				}
+				if n != 1 || math.Float64frombits(last) != 7 {
+					return "gauge-update-lost", fmt.Sprintf("one update (to 7) made by the goroutine that did not create the gauge, a pass alongside and one afterwards: %d deliveries, last value %v", n, math.Float64frombits(last)), "viol"
 				}
 			case "histogram":
 				hs := histSums(log)
